@@ -50,7 +50,35 @@ static std::string decorate(Rng& r, const std::string& name, std::string& how) {
 static std::string negative(Rng& r, const std::vector<std::string>& names, std::string& how) {
   const std::string& n = names[(size_t)r.below((int)names.size())];
   std::string s = n;
-  switch (r.below(9)) {
+  switch (r.below(12)) {
+    case 9: {
+      // two neighbouring characters changed by (+k, -M k): length and the polynomial string hash with multiplier M (31: Java, 33: djb2, 37, 131) are
+      // preserved - a comparison by hash alone would accept it
+      how = "hash-preserving-pair";
+      static const int M[] = {31, 33, 37, 131, 31, 31};
+      for (int tries = 0; tries < 200; tries++) {
+        size_t p = (size_t)r.below((int)s.size() - 1); int mm = M[r.below(6)], k = r.coin() ? 1 : -1;
+        if (r.below(4) == 0) k *= 2;
+        int a = (unsigned char)n[p] + k, b = (unsigned char)n[p + 1] - mm * k;
+        if (a > 32 && a < 127 && b > 32 && b < 127 && a != '-' && b != '-') { s = n; s[p] = (char)a; s[p + 1] = (char)b; break; }
+      }
+      if (s == n) s += "#";
+      break;
+    }
+    case 10: {
+      // bytes with the top bit set whose low seven bits spell the name (or its upper-case form): not a catalogue name
+      how = "high-bit-bytes";
+      int cnt = 1 + r.below(3);
+      for (int i = 0; i < cnt; i++) { size_t p = (size_t)r.below((int)s.size()); s[p] = (char)((unsigned char)s[p] | 0x80); }
+      break;
+    }
+    case 11: {
+      // other white space and separators the normal form does not remove
+      how = "other-whitespace";
+      static const char W[] = {'\t', '\n', '\v', '\f', '\r', '_', '.', '+'};
+      s.insert((size_t)r.below((int)s.size() + 1), 1, W[r.below(8)]);
+      break;
+    }
     case 0: { how = "random"; int L = r.below(24); s.clear(); for (int i = 0; i < L; i++) s += "abcdefghijklmnopqrstuvwxyz_0123456789 -"[r.below(39)]; break; }
     case 1: { how = "delete1"; size_t p; int guard = 0; do { p = (size_t)r.below((int)s.size()); } while ((s[p] == '-' || s[p] == ' ') && ++guard < 50); s.erase(p, 1); break; }
     case 2: { how = "insert1"; s.insert((size_t)r.below((int)s.size() + 1), 1, "abcxyz_019.\t/"[r.below(13)]); break; }
